@@ -69,7 +69,11 @@ def classify(ctx, harnesses, results):
             if v == "PROVED":
                 continue
             own = [f for f in (r.get("failed") or []) if f["id"].startswith(("harness.", "verif_", "ref_")) and ".assertion." not in f["id"]]
-            if v == "REFUTED" and own:
+            unw = [f for f in (r.get("failed") or []) if ".unwind." in f["id"]]
+            if v == "REFUTED" and unw and not h.meta.get("unwind_is_property"):
+                errors.append(r)
+                print("ERROR property=%s harness=%s: unwinding assertion fails (%s): the stated loop bound %d is too small for this code -- inconclusive, not a verdict" % (pid, h.name, unw[0]["id"], h.unwind))
+            elif v == "REFUTED" and own:
                 errors.append(r)
                 print("ERROR property=%s harness=%s: cbmc check fails inside the harness' own code (%s) -- harness bug, not a verdict" % (pid, h.name, own[0]["text"]))
             elif v == "REFUTED":
